@@ -20,6 +20,7 @@ import (
 type TxIndex struct {
 	mu      sync.Mutex
 	indexed map[string]int64 // upper-hex hash -> height
+	codes   map[string]uint32 // upper-hex hash -> DeliverTx result code
 	Lookups int64
 	Hits    int64
 	// LimitOn/Limit: only entries indexed at a height <= Limit are visible (used when a block is re-executed:
@@ -42,7 +43,7 @@ func NewTxIndex() (*TxIndex, error) {
 	if err != nil {
 		return nil, err
 	}
-	t := &TxIndex{indexed: map[string]int64{}, Addr: "unix://" + sock, ln: ln, dir: dir}
+	t := &TxIndex{indexed: map[string]int64{}, codes: map[string]uint32{}, Addr: "unix://" + sock, ln: ln, dir: dir}
 	mux := http.NewServeMux()
 	mux.HandleFunc("/", t.handle)
 	t.srv = &http.Server{Handler: mux}
@@ -59,6 +60,15 @@ func (t *TxIndex) Close() {
 func (t *TxIndex) Add(hash []byte, height int64) {
 	t.mu.Lock()
 	t.indexed[strings.ToUpper(hex.EncodeToString(hash))] = height
+	t.mu.Unlock()
+}
+
+// AddResult indexes a transaction together with the result code of its DeliverTx, as Tendermint's indexer does.
+func (t *TxIndex) AddResult(hash []byte, height int64, code uint32) {
+	t.mu.Lock()
+	k := strings.ToUpper(hex.EncodeToString(hash))
+	t.indexed[k] = height
+	t.codes[k] = code
 	t.mu.Unlock()
 }
 
@@ -81,6 +91,7 @@ func (t *TxIndex) SetLimit(on bool, h int64) {
 func (t *TxIndex) Reset() {
 	t.mu.Lock()
 	t.indexed = map[string]int64{}
+	t.codes = map[string]uint32{}
 	t.LimitOn = false
 	t.mu.Unlock()
 }
@@ -117,11 +128,12 @@ func (t *TxIndex) handle(w http.ResponseWriter, r *http.Request) {
 	if ok && t.LimitOn && h > t.Limit {
 		ok = false
 	}
+	code := t.codes[hx]
 	t.mu.Unlock()
 	if !ok {
 		fail(fmt.Sprintf("Tx (%s) not found", hx))
 		return
 	}
 	atomic.AddInt64(&t.Hits, 1)
-	fmt.Fprintf(w, `{"jsonrpc":"2.0","id":%s,"result":{"hash":"%s","height":"%d","index":0,"tx_result":{},"tx":""}}`, string(q.ID), hx, h)
+	fmt.Fprintf(w, `{"jsonrpc":"2.0","id":%s,"result":{"hash":"%s","height":"%d","index":0,"tx_result":{"code":%d},"tx":""}}`, string(q.ID), hx, h, code)
 }
